@@ -190,8 +190,13 @@ class Engine:
 
     # ------------------------------------------------------------ helpers
     def new_interp(self):
-        it = Interp(Ctx())
-        self.interp = it
+        # one interpreter per engine: parsed modules and evaluated module
+        # level literals are shared between contracts (they are immutable
+        # tables); every path gets a fresh Ctx
+        if self.interp is None:
+            self.interp = Interp(Ctx())
+        it = self.interp
+        it.contracts = {}
         return it
 
     def explore(self, it, run):
@@ -218,7 +223,13 @@ class Engine:
 
     def arg_specs(self, c, cfg):
         a = c.args if isinstance(c, Contract) else c.forall
-        return a(**cfg) if callable(a) else a
+        a = dict(a(**cfg) if callable(a) else a)
+        g = getattr(c, 'ghost', None) or {}
+        g = g(**cfg) if callable(g) else g
+        for k, v in g.items():
+            a[k] = v
+        self._ghosts = set(g)
+        return a
 
     # ------------------------------------------------------------ contract
     def verify(self, c):
@@ -272,6 +283,7 @@ class Engine:
         t0 = time.time()
         fv = it.resolve(c.target)
         self._record_function(it, c.target, fv)
+        ghosts = set(self._ghosts)
 
         def run(ctx):
             pr, B = self._symbolic_run(it, c, specs, ctx)
@@ -282,7 +294,8 @@ class Engine:
             for nm, v in pr.args.items():
                 pre_env.vars[nm] = deep_copy(it, v, memo)
             pr.env.vars['$pre_env'] = pre_env
-            call_args = dict(pr.args)
+            call_args = {k: v for k, v in pr.args.items()
+                         if k not in ghosts}
             target = fv
             try:
                 if 'self' in call_args and hasattr(fv, 'cls') and \
@@ -537,6 +550,7 @@ class Engine:
         return {'target': c.target if isc else None, 'lemma': not isc,
                 'order': list(specs),
                 'args': {n: sp.desc(n, asg) for n, sp in specs.items()},
+                'ghosts': sorted(getattr(self, '_ghosts', ())) if isc else [],
                 'requires': list(c.requires if isc else c.given),
                 'clauses': list(clauses), 'post_state': post_state}
 
